@@ -308,6 +308,12 @@ theorem inv_pClose {v cap s s' k} (hi : Inv v s) (_hg : good v s (.pClose k)) (h
 theorem inv_rEof {v cap s s' k} (hi : Inv v s) (_hg : good v s (.rEof k)) (h : step v cap s (.rEof k) = some s') : Inv v s' := by
   inv_case h
 
+theorem inv_rErr {v cap s s' k} (hi : Inv v s) (_hg : good v s (.rErr k)) (h : step v cap s (.rErr k) = some s') : Inv v s' := by
+  inv_case h
+
+theorem inv_pReset {v cap s s' k} (hi : Inv v s) (_hg : good v s (.pReset k)) (h : step v cap s (.pReset k) = some s') : Inv v s' := by
+  inv_case h
+
 theorem inv_rClose {v cap s s' k} (hi : Inv v s) (_hg : good v s (.rClose k)) (h : step v cap s (.rClose k) = some s') : Inv v s' := by
   inv_case h
 
@@ -385,6 +391,8 @@ theorem inv_step {v cap s s' a} (hi : Inv v s) (hg : good v s a) (h : step v cap
   | obsRecv k id => exact inv_obsRecv hi h
   | pClose k => exact inv_pClose hi hg h
   | rEof k => exact inv_rEof hi hg h
+  | rErr k => exact inv_rErr hi hg h
+  | pReset k => exact inv_pReset hi hg h
   | rClose k => exact inv_rClose hi hg h
   | rSignal k => exact inv_rSignal hi hg h
   | sTopDone k => exact inv_sTopDone hi hg h
